@@ -9,8 +9,9 @@ from .. import cfgs, gen, rng
 from . import c07
 
 LEVEL = 'exploration'
-RULE = ("Storage kind (Batch, Interval, Sequence, UniformReservoir, GeometricReservoir) and CONTENT produced by a generated update "
-        "history of 1..12 rows (so reservoirs after replacement and the deque of IntervalStorage are covered), instance x over the same "
+RULE = ("1..4 ROUNDS of [store 0..12 more rows, then impute] with the SAME imputer object (so whatever an imputer remembers between calls meets "
+        "a storage that changed meanwhile); storage kind (Batch, Interval, Sequence, UniformReservoir, GeometricReservoir) and CONTENT produced by that "
+        "update history (so reservoirs after replacement and the deque of IntervalStorage are covered), instance x over the same "
         "d in 1..5 feature names (str/int/float mixtures), subset as list / tuple / set / frozenset / dict-keys view (empty, proper, "
         "full), MarginalImputer joint / product or DefaultImputer, n_samples 1..4, the library's random draws SCRIPTED by Hypothesis. "
         "Oracle on the recorded model inputs: equal to x outside the subset; inside: the configured default, or a stored row r with "
@@ -38,6 +39,8 @@ def _subset(kind, names):
 
 
 def run_case(case):
+    """Rounds: [more rows are stored] -> impute(...) with the SAME imputer object, so that anything an imputer remembers between
+    calls (caches of the background) is confronted with a storage that has changed in the meantime."""
     from ixai.imputer import MarginalImputer, DefaultImputer
     names = list(case['names'])
     d = len(names)
@@ -45,111 +48,130 @@ def run_case(case):
     model = Model(case['spec'], names, mode)
     scfg = dict(case['storage'], st=case['storage'].get('st', True))
     src = rng.Scripted(case['script'])
+    tag = case['imputer']
+    rounds = case.get('rounds') or [{'rows': case['rows'], 'x': case['x'], 'subset': case['subset'], 'subset_type': case['subset_type'],
+                                     'n_samples': case['n_samples'], 'positional': case.get('positional')}]
+    nt = False
+    labels = [tag, case['storage']['cls']]
     with rng.patched_random(src):
         storage = c07.make(scfg)
-        rows = []
-        for r in case['rows']:
-            row = {n: num(v, mode) for n, v in zip(names, r)}
-            rows.append(row)
-            storage.update(row, ['y', len(rows)])
-        x = {n: num(v, mode) for n, v in zip(names, case['x'])}
-        sub_names = [names[i] for i in case['subset']]
-        subset = _subset(case['subset_type'], sub_names)
-        if case['imputer'] == 'default':
+        if tag == 'default':
             defaults = {n: num(v, mode) for n, v in zip(names, case['defaults'])}
             imp = DefaultImputer(model, dict(defaults))
         else:
             defaults = None
-            imp = MarginalImputer(model, case['imputer'], storage)
-        xs_before = [dict(r) for r in storage.get_data()[0]]
-        ys_before = list(storage.get_data()[1])
-        x_before = dict(x)
-        subset_before = list(subset)
-        n = case['n_samples']
-        mark = len(model.calls)
-        try:
-            if case.get('positional'):
-                preds = imp.impute(subset, x, n)
-            else:
-                preds = imp.impute(feature_subset=subset, x_i=x, n_samples=n)
-        except Exception as e:
-            return Result(False, key=f'C06:exception:{type(e).__name__}',
-                          detail=f'impute raised {e!r} (subset type {case["subset_type"]}, {case["imputer"]})')
+            imp = MarginalImputer(model, tag, storage)
+        n_rows = 0
+        for ri, rnd in enumerate(rounds):
+            for r in rnd['rows']:
+                n_rows += 1
+                storage.update({n: num(v, mode) for n, v in zip(names, r)}, ['y', n_rows])
+            if len(storage) == 0:
+                continue
+            res = one_impute(imp, model, storage, names, mode, tag, defaults, rnd, ri)
+            if isinstance(res, Result):
+                return res
+            nt = nt or res[0]
+            labels += res[1]
+    if len(rounds) > 1:
+        labels.append('multi_round')
+    return Result(True, nontrivial=nt, labels=sorted(set(labels)))
+
+
+def one_impute(imp, model, storage, names, mode, tag, defaults, rnd, ri):
+    d = len(names)
+    x = {n: num(v, mode) for n, v in zip(names, rnd['x'])}
+    sub_names = [names[i] for i in rnd['subset']]
+    subset = _subset(rnd['subset_type'], sub_names)
+    xs_before = [dict(r) for r in storage.get_data()[0]]
+    ys_before = list(storage.get_data()[1])
+    x_before = dict(x)
+    subset_before = list(subset)
+    n = rnd['n_samples']
+    mark = len(model.calls)
+    try:
+        if rnd.get('positional'):
+            preds = imp.impute(subset, x, n)
+        else:
+            preds = imp.impute(feature_subset=subset, x_i=x, n_samples=n)
+    except Exception as e:
+        return Result(False, key=f'C06:exception:{type(e).__name__}',
+                      detail=f'round {ri + 1}: impute raised {e!r} (subset type {rnd["subset_type"]}, {tag})')
     calls = model.calls[mark:]
-    tag = case['imputer']
-    # nothing modified
+    where = f'round {ri + 1}: '
     if x != x_before or list(x) != list(x_before):
-        return Result(False, key=f'C06:{tag}:instance-modified', detail=f'x_i changed from {x_before!r} to {x!r}')
+        return Result(False, key=f'C06:{tag}:instance-modified', detail=where + f'x_i changed from {x_before!r} to {x!r}')
     if list(subset) != subset_before:
-        return Result(False, key=f'C06:{tag}:subset-modified', detail='the feature subset was modified')
+        return Result(False, key=f'C06:{tag}:subset-modified', detail=where + 'the feature subset was modified')
     xs_after = [dict(r) for r in storage.get_data()[0]]
     if xs_after != xs_before or list(storage.get_data()[1]) != ys_before:
-        return Result(False, key=f'C06:{tag}:storage-modified', detail=f'storage content changed: {xs_before!r} -> {xs_after!r}')
-    # return value
+        return Result(False, key=f'C06:{tag}:storage-modified', detail=where + f'storage content changed: {xs_before!r} -> {xs_after!r}')
     if not isinstance(preds, list) or len(preds) != n:
-        return Result(False, key=f'C06:{tag}:prediction-count', detail=f'{len(preds) if hasattr(preds, "__len__") else preds!r} predictions for n_samples={n}')
+        return Result(False, key=f'C06:{tag}:prediction-count', detail=where + f'{len(preds) if hasattr(preds, "__len__") else preds!r} predictions for n_samples={n}')
     if tag == 'default':
         if len(calls) not in (1, n):
-            return Result(False, key='C06:default:model-calls', detail=f'{len(calls)} model evaluations')
+            return Result(False, key='C06:default:model-calls', detail=where + f'{len(calls)} model evaluations')
     elif len(calls) != n:
-        return Result(False, key=f'C06:{tag}:model-calls', detail=f'{len(calls)} model evaluations for n_samples={n}')
+        return Result(False, key=f'C06:{tag}:model-calls', detail=where + f'{len(calls)} model evaluations for n_samples={n}')
     for i, p in enumerate(preds):
         inp, _ids, out = calls[i if len(calls) == n else 0]
         if p != out:
-            return Result(False, key=f'C06:{tag}:prediction-mismatch', detail=f'prediction {i} is {p!r} but the model returned {out!r} for its input')
+            return Result(False, key=f'C06:{tag}:prediction-mismatch', detail=where + f'prediction {i} is {p!r} but the model returned {out!r} for its input')
     stored = xs_before
     for inp, _ids, out in calls:
         if set(inp) != set(x):
-            return Result(False, key=f'C06:{tag}:input-keys', detail=f'model input has keys {list(inp)!r}')
+            return Result(False, key=f'C06:{tag}:input-keys', detail=where + f'model input has keys {list(inp)!r}')
         for f in names:
             if f not in sub_names and not (inp[f] == x[f]):
-                return Result(False, key=f'C06:{tag}:outside-subset-changed', detail=f'feature {f!r} outside the subset {sub_names!r} is {inp[f]!r}, x has {x[f]!r}')
+                return Result(False, key=f'C06:{tag}:outside-subset-changed', detail=where + f'feature {f!r} outside the subset {sub_names!r} is {inp[f]!r}, x has {x[f]!r}')
         if tag == 'default':
             for f in sub_names:
                 if inp[f] != defaults[f]:
-                    return Result(False, key='C06:default:not-default', detail=f'feature {f!r} is {inp[f]!r}, configured default {defaults[f]!r}')
+                    return Result(False, key='C06:default:not-default', detail=where + f'feature {f!r} is {inp[f]!r}, configured default {defaults[f]!r}')
         elif tag == 'joint':
             if sub_names and not any(all(inp[f] == r[f] for f in sub_names) for r in stored):
-                return Result(False, key='C06:joint:not-one-row', detail=f'imputed values { {f: inp[f] for f in sub_names}!r} do not come from ONE stored row of {stored!r}')
+                return Result(False, key='C06:joint:not-one-row', detail=where + f'imputed values { {f: inp[f] for f in sub_names}!r} do not come from ONE currently stored row of {stored!r}')
         else:
             for f in sub_names:
                 if not any(inp[f] == r[f] for r in stored):
-                    return Result(False, key='C06:product:not-a-stored-value', detail=f'feature {f!r} = {inp[f]!r} is no stored value of that feature')
+                    return Result(False, key='C06:product:not-a-stored-value', detail=where + f'feature {f!r} = {inp[f]!r} is no value of that feature in a currently stored observation {stored!r}')
     distinct_rows = len({tuple(sorted(map(repr, r.items()))) for r in stored})
     differs = all(any(x[f] != r[f] for f in sub_names) for r in stored) if sub_names else False
     nt = 0 < len(sub_names) < d and distinct_rows >= 2 and n >= 2 and differs
-    labels = [tag, case['subset_type'], case['storage']['cls'],
-              'empty' if not sub_names else ('full' if len(sub_names) == d else 'proper')]
-    return Result(True, nontrivial=nt, labels=labels)
+    labels = [rnd['subset_type'], 'empty' if not sub_names else ('full' if len(sub_names) == d else 'proper')]
+    return nt, labels
 
 
 @st.composite
 def cases(draw):
     d = draw(st.integers(1, 5))
     names = draw(cfgs.names_st(d))
-    nrows = draw(st.sampled_from([1, 2, 3, 4, 6, 9, 12]))
     style = draw(st.sampled_from(['ties', 'distinct', 'distinct']))
-    if style == 'ties':
-        rows = [[draw(st.integers(-2, 2)) for _ in range(d)] for _ in range(nrows)]
-        x = [draw(st.integers(-2, 2)) for _ in range(d)]
-    else:
-        rows = [[10 * (i + 1) + f for f in range(d)] for i in range(nrows)]
-        x = [-(f + 1) for f in range(d)]
-    shape = draw(st.sampled_from(['empty', 'proper', 'proper', 'proper', 'full'])) if d >= 2 else draw(st.sampled_from(['empty', 'full']))
-    if shape == 'empty':
-        subset = []
-    elif shape == 'full':
-        subset = draw(st.permutations(list(range(d))))
-    else:
-        size = draw(st.integers(1, d - 1))
-        subset = draw(st.permutations(list(range(d))))[:size]
+    n_rounds = draw(st.sampled_from([1, 1, 2, 3, 4]))
+    rounds = []
+    serial = 0
+    for ri in range(n_rounds):
+        nrows = draw(st.sampled_from([1, 2, 3, 4, 6, 9, 12])) if ri == 0 else draw(st.integers(0, 5))
+        rows = []
+        for _ in range(nrows):
+            serial += 1
+            rows.append([draw(st.integers(-2, 2)) for _ in range(d)] if style == 'ties' else [10 * serial + f for f in range(d)])
+        x = [draw(st.integers(-2, 2)) for _ in range(d)] if style == 'ties' else [-(f + 1) for f in range(d)]
+        shape = draw(st.sampled_from(['empty', 'proper', 'proper', 'proper', 'full'])) if d >= 2 else draw(st.sampled_from(['empty', 'full']))
+        if shape == 'empty':
+            subset = []
+        elif shape == 'full':
+            subset = draw(st.permutations(list(range(d))))
+        else:
+            size = draw(st.integers(1, d - 1))
+            subset = draw(st.permutations(list(range(d))))[:size]
+        rounds.append({'rows': rows, 'x': x, 'subset': list(subset), 'subset_type': draw(st.sampled_from(SUBSET_TYPES)),
+                       'n_samples': draw(st.sampled_from([1, 2, 2, 3, 4])), 'positional': draw(st.booleans())})
     return {
         'names': names, 'mode': draw(st.sampled_from(['exact', 'float'])),
-        'spec': draw(cfgs.model_st(d)), 'storage': draw(cfgs.storage_st()), 'rows': rows, 'x': x,
-        'subset': subset, 'subset_type': draw(st.sampled_from(SUBSET_TYPES)),
+        'spec': draw(cfgs.model_st(d)), 'storage': draw(cfgs.storage_st()), 'rounds': rounds,
         'imputer': draw(st.sampled_from(['joint', 'product', 'default', 'joint', 'product'])),
-        'defaults': [draw(st.integers(-3, 3)) for _ in range(d)],
-        'n_samples': draw(st.sampled_from([1, 2, 2, 3, 4])), 'positional': draw(st.booleans()), 'script': draw(gen.script),
+        'defaults': [draw(st.integers(-3, 3)) for _ in range(d)], 'script': draw(gen.script),
     }
 
 
